@@ -66,7 +66,11 @@ let oracle_c14 (line : string) : string =
     end else begin
       let closed = List.concat_map (fun (_, (_, _, tgt)) ->
           match t_find (zi tgt) t with Some sub -> subtree_ids sub | None -> []) cs.mus in
-      if not (c14_rest_checkb closed expected observed) then
+      (* a window closing ITSELF: the rest in the unmutated order; closing another window: the
+         rest as a multiset (the tree the remaining routing sees is a different one) *)
+      let self_only = List.for_all (fun (id, (_, _, tgt)) -> id = tgt) cs.mus in
+      if not (if self_only then c14_rest_checkb closed expected observed
+              else c14_rest_set_checkb closed expected observed) then
         bad := Some (Printf.sprintf "record %d: delivery to the windows that were not closed is derailed: %s vs %s" k (pr_ievs observed) (pr_ievs expected))
     end in
   List.iteri (fun k r ->
